@@ -120,12 +120,12 @@ pub fn cursor_seek() {
     let mut c = Cursor::<u8, &[u8]>::new_at_pos(&arr[..len], pos).unwrap();
     let target: usize = any();
     let r = c.seek(target);
-    if target <= len { assert!(r.is_ok() && Pos::pos(&c) == target, "C17: seek to a valid position must succeed and be reported by pos()"); }
-    else { assert!(r.is_err() && Pos::pos(&c) == pos, "C17: out-of-range seek must be refused and leave the cursor in place"); }
+    if target <= len { assert!(r.is_ok() && Pos::pos(&c) == target, "C17/C07: seek to a valid position must succeed and be reported by pos()"); }
+    else { assert!(r.is_err() && Pos::pos(&c) == pos, "C17/C07: out-of-range seek must be refused and leave the cursor in place"); }
     // Reverse delegates pos/seek unchanged
     let mut rc = Reverse(Cursor::<u8, &[u8]>::new_at_pos(&arr[..len], pos).unwrap());
     let r = rc.seek(target);
-    if target <= len { assert!(r.is_ok() && rc.pos() == target, "C17: Reverse seek/pos must delegate"); } else { assert!(r.is_err() && rc.pos() == pos, "C17: Reverse out-of-range seek must be refused"); }
+    if target <= len { assert!(r.is_ok() && rc.pos() == target, "C17/C07: Reverse seek/pos must delegate"); } else { assert!(r.is_err() && rc.pos() == pos, "C17/C07: Reverse out-of-range seek must be refused"); }
 }
 
 /// C17: Reverse<Cursor> as a sink: writes go downwards; space_left == number of writes that will
@@ -227,7 +227,7 @@ pub fn vec_backend() {
     let len: usize = any(); assume(len <= 3);
     let mut v: Vec<u8> = Vec::with_capacity(4);
     let mut i = 0; while i < len { v.push(arr[i]); i += 1; }
-    assert!(BoundedReadWords::<u8, Stack>::remaining(&v) == len && Pos::pos(&v) == len, "C17: Vec remaining/pos must be its length");
+    assert!(BoundedReadWords::<u8, Stack>::remaining(&v) == len && Pos::pos(&v) == len, "C17/C07: Vec remaining/pos must be its length");
     assert!(ReadWords::<u8, Stack>::maybe_exhausted(&v) == (len == 0), "C17: Vec maybe_exhausted wrong");
     assert!(!WriteWords::<u8>::maybe_full(&v), "C17: Vec never full");
     let w: u8 = any();
@@ -240,8 +240,8 @@ pub fn vec_backend() {
     let cur = v.len();
     let target: usize = any();
     let s = Seek::seek(&mut v, target);
-    if target <= cur { assert!(s.is_ok() && v.len() == target, "C17: Vec seek must truncate to the position"); let mut i = 0; while i < target { assert!(v[i] == arr[i], "C17: Vec seek changed surviving words"); i += 1; } }
-    else { assert!(s.is_err() && v.len() == cur, "C17: Vec seek beyond the end must be refused"); }
+    if target <= cur { assert!(s.is_ok() && v.len() == target, "C17/C07: Vec seek must truncate to the position"); let mut i = 0; while i < target { assert!(v[i] == arr[i], "C17/C07: Vec seek changed surviving words"); i += 1; } }
+    else { assert!(s.is_err() && v.len() == cur, "C17/C07: Vec seek beyond the end must be refused"); }
 }
 
 /// C17 (bounded): SmallVec as a stack backend, across the inline/heap switch.
